@@ -21,6 +21,10 @@ RULE = (
     "handles, fresh-session view vs model. Non-trivial and distinct = distinct cases in which the job existed "
     "with a payload or a destination was present."
 )
+RULE += (
+    " " + "Added later: None and '' as state point values and start state points holding them; payload names ending in '~'; shallow copies follow a move."
+    " In every third case DEBUG logging is effective for the package."
+)
 ASSUMPTIONS = [
     "An empty directory at the destination id is a class of its own: success with full carry or "
     "DestinationExistsError with no change are both accepted.",
